@@ -85,7 +85,7 @@ UNIT = Unit(
         Fn("src/state/applytx.rs", "apply_tx_batch_impl", mode="assume", **ap_batch_impl()),
         Fn(S, "apply_tx_batch", impl="UnsealedState", home="C02", implicit_props=("C09", "C02"), **st_apply_tx_batch()),
         Fn(S, "apply_block", impl="SealedState", home="C06", implicit_props=("C09", "C06", "C16"),
-           requires=[C("pre", "chain_ok(self.0) && state_inv(self.0) && spec_builtin_pools(self.0) && self.0.height.0 < u64::MAX"),
+           requires=[C("pre", "chain_ok(self.0) && state_inv(self.0) && spec_builtin_pools(self.0) && pools_ok(self.0.pools@) && builtins_if_present(self.0) && self.0.height.0 < u64::MAX"),
                      C("env", "forall|n: UnsealedState<C>, txx: Seq<Transaction>| next_rel(self.0, n) && txx.to_set() == block.transactions@ ==> #[trigger] batch_env(n, txx)",
                        note="C09 envelope: the arithmetic envelopes of batch application hold for the block's transactions")],
            ensures=[C("accepted", "res is Ok ==> spec_header(res->Ok_0.0) == block.header && res->Ok_0.1 == block.proposer_action && block_applied(self.0, *block, res->Ok_0.0)", "C06"),
